@@ -135,6 +135,8 @@ class Contract:
     requires: Callable | None = None  # (*args, **kwargs) -> list[Clause]
     instances: Callable | None = None  # tier -> list[Instance]
     callees: list = field(default_factory=list)  # contracts assumed at call sites
+    premises: list = field(default_factory=list)  # contracts this one assumes without a call site to patch (an abstract
+    # stub or a lemma stands for them): their home proofs are discharged with it (all_contracts), nothing is patched
     inherits: tuple = ()  # substrings of kernel-precondition names accepted as inherited requires
     doc: str = ""
     wrap: Callable | None = None  # optional: builds the callable from the resolved attribute
@@ -235,7 +237,7 @@ _DISABLED: set = set()
 
 
 def unpatch_all():
-    for name, (owner, attr, raw) in list(_PATCHED.items()):
+    for name, (owner, attr, raw) in reversed(list(_PATCHED.items())):  # reverse order: two contracts may patch one attribute
         setattr(owner, attr, raw)
     _PATCHED.clear()
 
@@ -1442,6 +1444,7 @@ def all_contracts(mod):
             continue
         out[c.name] = c
         stack.extend(c.callees)
+        stack.extend(c.premises)
     return list(out.values())
 
 
